@@ -2,13 +2,13 @@ SPECIFICATION Spec
 CONSTANTS
   Versions = {3, 4}
   StreamSets <- SS_dir
-  NSect = 9
+  NSect = 8
   Geo <- G3
   HD = 3
-  XFat = {0, 1}
+  XFat = {0}
   XMiniFat = {0, 1}
   FreeMinis = {0, 1}
-  XDirSect = {0, 1}
+  XDirSect = {0}
   DirMode = "all"
   PlaceMode = "ends"
   UseAsWas = FALSE
